@@ -334,6 +334,71 @@ def check_layout(case, opts, fails):
     return True
 
 
+def check_formats(case, opts, fails):
+    """C19: with several output files in one run, the format of each is determined by its own name (or falls back to
+    the input format), whatever the other outputs are called and in whatever order they are opened."""
+    d, paired, rng = case.d, case.paired, case.rng
+    sufs = [".fq", ".fastq", ".fasta", ".fa", ".fq.gz", ".fasta.gz", ".fa.gz", ".txt", ".out.gz"]
+    fasta_in = rng.random() < 0.3
+    if fasta_in:
+        ins = []
+        for k, recs in ((1, case.r1), (2, case.r2)):
+            pth = os.path.join(d, f"in{k}.fasta")
+            with open(pth, "w") as f:
+                for name, seq, _ in recs:
+                    f.write(f">{name}\n{seq}\n")
+            ins.append(pth)
+        ins = ins[:2 if paired else 1]
+        opts = [o for o in opts if o not in ("-q", "15", "10,20", "--nextseq-trim", "20")]
+    else:
+        ins = case.inputs()
+    outs = {}
+    args = list(opts) + ["-m", "12", "-M", "30"]
+    FAM = {"fasta": [".fasta", ".fa", ".fasta.gz", ".fa.gz"], "fastq": [".fq", ".fastq", ".fq.gz"], "none": [".txt", ".out.gz"]}
+    fam_of = {}
+    def out(opt, key):
+        # the two files of one pair go through one writer with one format: their names agree in format (they may
+        # differ in spelling and compression); mixed-format pairs are outside what the property describes
+        pair = key[:-1]
+        fam = fam_of.setdefault(pair, rng.choice(sorted(FAM)))
+        pth = os.path.join(d, key + rng.choice(FAM[fam]))
+        outs[key] = pth
+        return [opt, pth]
+    if rng.random() < 0.7:
+        args += out("--too-short-output", "short1")
+        if paired:
+            args += out("--too-short-paired-output", "short2")
+    if rng.random() < 0.5:
+        args += out("--too-long-output", "long1")
+        if paired:
+            args += out("--too-long-paired-output", "long2")
+    if rng.random() < 0.5:
+        args += out("--untrimmed-output", "untr1")
+        if paired:
+            args += out("--untrimmed-paired-output", "untr2")
+    args += out("-o", "main1")
+    if paired:
+        args += out("-p", "main2")
+    if "-a" not in args:
+        args = ["-a", f"x={A1}"] + args
+    args = ["-j", rng.choice([1, 1, 2])] + args + ins
+    code, _, err = run(args)
+    if code != 0:
+        return False
+    for key, pth in outs.items():
+        raw = (gzip.open(pth, "rb") if pth.endswith(".gz") else open(pth, "rb")).read()
+        if not raw:
+            continue
+        stem = pth[:-3] if pth.endswith(".gz") else pth
+        want = "fasta" if stem.endswith((".fasta", ".fa")) else "fastq" if stem.endswith((".fq", ".fastq")) else \
+            ("fasta" if fasta_in else "fastq")
+        got = "fasta" if raw[:1] == b">" else "fastq"
+        if want != got:
+            fails.append(("C19", args, f"output {os.path.basename(pth)} ({'FASTA' if fasta_in else 'FASTQ'} input) was written as {got.upper()}, "
+                                       f"its own name asks for {want.upper()}", {"file": os.path.basename(pth)}))
+    return True
+
+
 def check_order(case, fails):
     """C10: option order on the command line does not matter; steps compose in the documented order."""
     d, paired, rng = case.d, case.paired, case.rng
@@ -487,7 +552,9 @@ def main():
             elif kind == "C06":
                 did = check_cores(case, mods + [x for x in filt], fails)
             elif kind == "C19":
-                did = check_cores(case, mods, fails) if rng.random() < 0.5 else check_layout(case, mods, fails)
+                r_ = rng.random()
+                did = check_cores(case, mods, fails) if r_ < 0.3 else check_layout(case, mods, fails) if r_ < 0.6 else \
+                    check_formats(case, mods, fails)
             elif kind == "C10":
                 did = check_order(case, fails)
             elif kind == "C11":
